@@ -148,3 +148,31 @@ Theorem C11_stack_elements : forall (A : Type) (ts : list (tensor A)) axis d r,
     forall dflt, get r idx d = get (nth (nth ax idx 0%nat) ts dflt) (remove_nth ax idx) d.
 Proof. exact @ndx_stack_spec. Qed.
 Print Assumptions C11_stack_elements.
+
+(* take / expand_dims / tril / triu: shape and every element in closed form (NumPy's laws), any rank, extent, axis, index
+   list (Python's negative indices) and diagonal offset *)
+From ND Require Import Ndx.LayoutLaws.
+Theorem C11_take_law : forall (A : Type) (t : tensor A) (ix : list Z) axis d r, ndx_take t ix axis d = GetItem.Done r ->
+  let ax := zaxis (rank t) axis in let n := Z.of_nat (nth ax (shape t) 0%nat) in
+  (ax < rank t)%nat /\
+  (forall z, In z ix -> (- n <= z < n)%Z) /\
+  shape r = replace_nth ax (length ix) (shape t) /\
+  forall o, Tensor.in_bounds (shape r) o ->
+    (nth ax o 0%nat < length ix)%nat /\
+    (norm_index n (nth (nth ax o 0%nat) ix 0%Z) < nth ax (shape t) 0%nat)%nat /\
+    get r o d = get t (replace_nth ax (norm_index n (nth (nth ax o 0%nat) ix 0%Z)) o) d.
+Proof. exact @ndx_take_spec. Qed.
+Theorem C11_expand_dims_law : forall (A : Type) (t : tensor A) axis d r, ndx_expand_dims t axis d = GetItem.Done r ->
+  let ax := zaxis (rank t + 1) axis in
+  (ax <= rank t)%nat /\ shape r = insert_nth ax 1%nat (shape t) /\
+  forall idx, Tensor.in_bounds (shape r) idx -> get r idx d = get t (remove_nth ax idx) d.
+Proof. exact @ndx_expand_dims_spec. Qed.
+Theorem C11_tril_triu_law : forall (A : Type) (t : tensor A) k upper zero d r, ndx_trilu t k upper zero d = GetItem.Done r ->
+  (2 <= rank t)%nat /\ shape r = shape t /\
+  forall idx, Tensor.in_bounds (shape t) idx ->
+    let i := Z.of_nat (nth (rank t - 2) idx 0%nat) in let j := Z.of_nat (nth (rank t - 1) idx 0%nat) in
+    get r idx d = if (if upper then (k <=? j - i)%Z else (j - i <=? k)%Z) then get t idx d else zero.
+Proof. exact @ndx_trilu_spec. Qed.
+Print Assumptions C11_take_law.
+Print Assumptions C11_expand_dims_law.
+Print Assumptions C11_tril_triu_law.
